@@ -413,6 +413,34 @@ def run(ctx):
                "can produce `<`, `>`, quotes from escaped text (entity decoding, unescaping) the raw data reaches the output"
                % root_, f_.where(bb_))
     ctx.floor("C02.S9 callers of preserve_safety", n9, 4)
+    # S9b: such a transform carries the flag over on *every* success path.  An early return that hands the text back as
+    # a plain string (a "nothing to do" fast path) drops the flag of an already escaped capture, which is then escaped a
+    # second time when it is printed (seed C02-8).
+    for root_ in sorted({(f_.root or f_.path) for f_, _, _ in query.fn_refs(prog).get(PRES, [])}):
+        g_ = prog.fns.get(root_)
+        if g_ is None or not any(c.name == PRES for c in g_.calls()):
+            continue
+        plain = []
+        for r in flow.origins(g_, 0):
+            if r.kind == "call" and r.call.name == PRES:
+                continue
+            if r.kind == "agg" and r.rv.get("variant") == "Err":
+                continue
+            if r.kind == "agg" and r.rv.get("variant") == "Ok" and r.rv["ops"]:
+                inner = flow.origins(g_, r.rv["ops"][0])
+                if inner and all(o.kind == "call" and o.call.name == PRES for o in inner):
+                    continue
+                plain.append(", ".join(sorted({repr(o) for o in inner}))[:160])
+                continue
+            if r.kind == "call" and r.call.dest == {"l": 0}:
+                # a Result handed on as it is (`return Err(..)` built by a helper / `?`): only its Err side can be meant
+                # when the callee returns no Value
+                continue
+            plain.append(repr(r)[:160])
+        ctx.ob("C02.S9.safety-is-carried-over-on-every-path", root_, not plain,
+               "%s marks its result safe when the input was (preserve_safety) on some paths but returns %s on another: a "
+               "safe (already escaped) input comes back as a plain string there and is escaped a second time when printed"
+               % (root_.split("::")[-1], plain), g_.loc)
     # ---- S3 / S4
     refs = query.fn_refs(prog).get(SAFE, [])
     ctx.floor("C02.S3 from_safe_string sites", len(refs), 14)
